@@ -20,11 +20,11 @@ structure Inv (ids : List Nat) (n : Nat) (s : St) : Prop where
     j ∈ s.doneOK ∨ (∃ (w : Nat) (ph : Phase), s.workers[w]? = some (W.busy j ph)) ∨ s.groupErr = true
   done_cov : ∀ j, j ∈ s.doneOK → Cov s (s.ids.getD j 0)
   proc_cov : ∀ x, x ∈ s.processed → Cov s x
-  closed : s.feederClosed = true → s.next = ids.length ∨ s.groupErr = true
+  closed : s.feederClosed = true → s.next = ids.length ∨ s.broke = true
   exited : ∀ w : Nat, s.workers[w]? = some W.exited → s.feederClosed = true ∨ s.groupErr = true
   res : ∀ r, s.result = some r → s.feederClosed = true ∧
     (∀ (w : Nat) (x : W), s.workers[w]? = some x → x = W.exited) ∧
-      r = (if s.groupErr then Res.err else Res.ok)
+      r = (if s.groupErr then Res.err else if s.broke then Res.interrupted else Res.ok)
 
 theorem inv_init (ids : List Nat) (n : Nat) : Inv ids n (St.init ids n) := by
   constructor <;> simp [St.init, List.getElem?_replicate]
@@ -212,10 +212,10 @@ theorem success_implies_all_fed (ids : List Nat) (n : Nat) (s : St)
     (h : Reachable (St.init ids n) s) (hr : s.result = some .ok) : s.next = ids.length := by
   have hi := inv_reachable h
   have hg := failure_is_reported ids n s h hr
-  obtain ⟨hcl, _, _⟩ := hi.res _ hr
+  obtain ⟨hcl, _, hres⟩ := hi.res _ hr
   rcases hi.closed hcl with h | h
   · exact h
-  · simp [hg] at h
+  · simp [hg, h] at hres
 
 /-- **bulk writes are complete when they report success**: for every schedule, worker count, fault
 pattern and job list with duplicates: result ok ⇒ every job's chunk ID was seen in the store
@@ -253,40 +253,40 @@ theorem exists_not_exited (ws : List W) (h : ¬ ws.all (· == W.exited) = true) 
   obtain ⟨w, hw⟩ := List.mem_iff_getElem?.1 hx
   exact ⟨w, x, hw, hne⟩
 
-theorem enabled_of_isSome {s : St} (e : Ev) (h : (step s e).isSome = true) :
-    ∃ e s', step s e = some s' := by
+theorem enabled_of_isSome {s : St} (e : Ev) (hne : e ≠ Ev.parentCancel) (h : (step s e).isSome = true) :
+    ∃ e s', e ≠ Ev.parentCancel ∧ step s e = some s' := by
   obtain ⟨s', hs'⟩ := Option.isSome_iff_exists.1 h
-  exact ⟨e, s', hs'⟩
+  exact ⟨e, s', hne, hs'⟩
 
 /-- a busy worker can always take its next step -/
 theorem busy_enabled {s : St} {w j : Nat} {ph : Phase} (hw : s.workers[w]? = some (W.busy j ph)) :
-    ∃ e s', step s e = some s' := by
+    ∃ e s', e ≠ Ev.parentCancel ∧ step s e = some s' := by
   cases ph with
   | start =>
     by_cases hp : s.processed.contains (idOf s j) = true
-    · exact enabled_of_isSome (.mark w) (by simp only [step, hw, if_pos hp]; rfl)
-    · exact enabled_of_isSome (.mark w) (by simp only [step, hw, if_neg hp]; rfl)
-  | marked => exact enabled_of_isSome (.hasTrue w) (by simp only [step, hw]; rfl)
-  | storing => exact enabled_of_isSome (.storeOk w) (by simp only [step, hw]; rfl)
+    · exact enabled_of_isSome (.mark w) (by simp) (by simp only [step, hw, if_pos hp]; rfl)
+    · exact enabled_of_isSome (.mark w) (by simp) (by simp only [step, hw, if_neg hp]; rfl)
+  | marked => exact enabled_of_isSome (.hasTrue w) (by simp) (by simp only [step, hw]; rfl)
+  | storing => exact enabled_of_isSome (.storeOk w) (by simp) (by simp only [step, hw]; rfl)
 
-/-- no deadlock: in every reachable state without a result some event is enabled
-(for at least one worker) -/
+/-- no deadlock: in every reachable state without a result some event other than a cancellation of
+the parent context is enabled (for at least one worker) -/
 theorem no_deadlock (ids : List Nat) (n : Nat) (s : St) (hn : 1 ≤ n)
     (h : Reachable (St.init ids n) s) (hr : s.result = none) :
-    ∃ e s', step s e = some s' := by
+    ∃ e s', e ≠ Ev.parentCancel ∧ step s e = some s' := by
   have hi := inv_reachable h
   cases hcl : s.feederClosed
   · by_cases hnext : s.next = s.ids.length
-    · exact enabled_of_isSome .feedEnd (by simp [step, hcl, hnext])
+    · exact enabled_of_isSome .feedEnd (by simp) (by simp [step, hcl, hnext])
     · have hlt : s.next < s.ids.length := by have := hi.next_le; have := hi.ids_eq; grind
-      by_cases hc : s.groupErr = true
-      · exact enabled_of_isSome .feedBreak (by simp [step, hcl, hlt, hc])
+      by_cases hc : s.groupErr = true ∨ s.parentCancelled = true
+      · exact enabled_of_isSome .feedBreak (by simp) (by simp [step, hcl, hlt, hc])
       · have h0 : 0 < s.workers.length := by have := hi.wlen; omega
         have hw0 : s.workers[0]? = some s.workers[0] := List.getElem?_eq_getElem h0
         cases hx : s.workers[0] with
         | idle =>
           rw [hx] at hw0
-          exact enabled_of_isSome (.feedSend 0) (by simp [step, hcl, hlt, hw0])
+          exact enabled_of_isSome (.feedSend 0) (by simp) (by simp [step, hcl, hlt, hw0])
         | busy j ph =>
           rw [hx] at hw0
           exact busy_enabled hw0
@@ -294,13 +294,33 @@ theorem no_deadlock (ids : List Nat) (n : Nat) (s : St) (hn : 1 ≤ n)
           rw [hx] at hw0
           rcases hi.exited 0 hw0 with h | h
           · simp [hcl] at h
-          · exact absurd h hc
+          · exact absurd (.inl h) hc
   · by_cases hall : s.workers.all (· == W.exited) = true
-    · exact enabled_of_isSome .wait (by simp only [step]; rw [if_pos ⟨hcl, by simp [hr], hall⟩]; rfl)
+    · exact enabled_of_isSome .wait (by simp) (by simp only [step]; rw [if_pos ⟨hcl, by simp [hr], hall⟩]; rfl)
     · obtain ⟨w, x, hw, hne⟩ := exists_not_exited _ hall
       cases x with
-      | idle => exact enabled_of_isSome (.workExit w) (by simp [step, hcl, hw])
+      | idle => exact enabled_of_isSome (.workExit w) (by simp) (by simp [step, hcl, hw])
       | busy j ph => exact busy_enabled hw
       | exited => exact absurd rfl hne
+
+/-- the result is `Interrupted` only if the parent context was cancelled; without a cancellation and
+without a failed store call the command succeeds -/
+theorem broke_imp {ids : List Nat} {n : Nat} {s : St} (h : Reachable (St.init ids n) s) :
+    s.broke = true → s.groupErr = true ∨ s.parentCancelled = true := by
+  induction h with
+  | refl => simp [St.init]
+  | step e _ hs ih =>
+    cases e <;> simp only [step] at hs <;> (repeat' split at hs) <;> cases hs <;> simp_all
+
+theorem no_cancel_no_fault_success (ids : List Nat) (n : Nat) (s : St) (r : Res)
+    (h : Reachable (St.init ids n) s) (hr : s.result = some r)
+    (hc : s.parentCancelled = false) (he : s.groupErr = false) : r = .ok := by
+  have hi := inv_reachable h
+  obtain ⟨_, _, hres⟩ := hi.res _ hr
+  cases hb : s.broke
+  · simpa [he, hb] using hres
+  · rcases broke_imp h hb with h | h
+    · simp [he] at h
+    · simp [hc] at h
 
 end Desync.PoolCS
